@@ -384,6 +384,73 @@ func jobC16(c *rt.Ctx) {
 			}
 		}
 	}
+	// ---- dense recodings: scalars whose sliding-window recoding has the MAXIMUM number of non-zero digits
+	// (and every density below it): (1) every periodic bit pattern of period <= 8 (thorough: <= 11),
+	// plus and minus one; (2) for both window widths, every odd digit value of either sign repeated at
+	// spacing w and w+1 from every phase (negative digits: the borrow chain ends in a +1 digit on top)
+	c.Require("double/dense")
+	var dense []*big.Int
+	addDense := func(x *big.Int) {
+		if x.Sign() >= 0 && x.Cmp(ref.L) < 0 {
+			dense = append(dense, x)
+		}
+	}
+	maxPeriod := uint(8)
+	if c.Thorough() {
+		maxPeriod = 11
+	}
+	for k := uint(1); k <= maxPeriod; k++ {
+		for pat := int64(1); pat < 1<<k; pat++ {
+			x := new(big.Int)
+			for pos := uint(0); pos < 252; pos += k {
+				x.Or(x, new(big.Int).Lsh(big.NewInt(pat), pos))
+			}
+			x.And(x, badd(pow2(252), -1))
+			addDense(x)
+			addDense(badd(x, 1))
+			addDense(badd(x, -1))
+		}
+	}
+	nPeriodic := len(dense)
+	for _, w := range []uint{5, 7} {
+		for d := int64(1); d < 1<<(w-1); d += 2 {
+			for _, sign := range []int64{1, -1} {
+				for _, spacing := range []uint{w, w + 1} {
+					for phase := uint(0); phase < spacing; phase++ {
+						if !c.Thorough() && (uint(d)+phase+spacing)%3 != 0 && phase != 0 {
+							continue
+						}
+						x := new(big.Int)
+						pos := phase
+						for ; pos+w <= 253; pos += spacing {
+							x.Add(x, new(big.Int).Lsh(big.NewInt(sign*d), pos))
+						}
+						if sign < 0 {
+							x.Add(x, pow2(pos)) // the +1 digit that closes the borrow chain
+						}
+						addDense(x)
+					}
+				}
+			}
+		}
+	}
+	for i, x := range dense {
+		if !c.Take() {
+			continue
+		}
+		c.Distinct(fmt.Sprintf("dense %d", i), true)
+		p := allP[2]
+		if i%4 == 3 {
+			p = allP[12]
+		}
+		other := dense[(i*7+nPeriodic/2)%len(dense)]
+		a0r := new(big.Int).Mod(a0, ref.L) // reduced: with a mixed-order P the torsion part depends on the scalar itself
+		runDouble("double/dense", p, x, a0r, i%2 == 0)
+		runDouble("double/dense", p, a0r, x, i%2 == 1)
+		runDouble("double/dense", p, x, big.NewInt(0), i%2 == 0)
+		runDouble("double/dense", p, big.NewInt(0), x, i%2 == 1)
+		runDouble("double/dense", p, x, other, i%2 == 0)
+	}
 	// output parameters are fully overwritten: the result must not depend on what the output variable
 	// held before (VerifyBatch reuses its point and scalar slots from one chunk to the next)
 	c.Require("dirty-output")
